@@ -24,6 +24,8 @@ class ReaderCfg(Cfg):
         self.tabled_hits: list[str] = []
         self.exclusive = [{f"rec.{k}" for k in KIND_FLAGS}]
         self.implies = [(f"rec.{a}", f"rec.{b}") for a, b in inotify_event_implications(program)]
+        # inotify(7): create / delete / move events are generated for *entries* of a watched directory and carry the entry's name
+        self.implies += [(f"rec.{k}", "name") for k in ("is_moved_to", "is_moved_from", "is_create", "is_delete")]
 
     def inline(self, call, ft, rc, st):
         P = self.program
